@@ -10,7 +10,7 @@ from typing import Callable, Dict, List, Optional
 
 VERIF_DIR = os.path.dirname(os.path.dirname(os.path.abspath(__file__)))
 KNOWN_FILE = os.path.join(VERIF_DIR, "known_findings.json")
-EVID_DIR = os.path.join(VERIF_DIR, "evidence")
+EVID_DIR = os.environ.get("PMLINT_EVIDENCE_DIR") or os.path.join(VERIF_DIR, "evidence")
 REPLAY_DIR = os.path.join(EVID_DIR, "replay")
 
 OK, VIOLATED, BENIGN = "discharged", "violated", "discharged-benign"
